@@ -233,7 +233,7 @@ def gen_cases(ctx):
                     continue
                 cases.append(make_case(rng, stepper, mm, mr, list(script), dirs2))
     # random long histories
-    for _ in range(300 if ctx.thorough() else 80):
+    for _ in range(3000 if ctx.thorough() else 80):
         stepper = rng.choice(["natural", "secant"])
         n = rng.randint(6, 40)
         script = [rng.choice("AAARRX") for _ in range(n)]
